@@ -601,6 +601,18 @@ pub(super) fn extract_optimizable_while_loop(
       return Err((loop_variables, stmts, original_break_collector));
     }
   };
+  // The comparison of the guard is not kept in the rewritten loop: nothing after it may read its result.
+  let mut used_after_guard = HashSet::new();
+  if let Some((_, _, guard_stmts)) = stmts[1].as_single_if() {
+    dead_code_elimination::collect_use_from_stmts(guard_stmts, &mut used_after_guard);
+  }
+  dead_code_elimination::collect_use_from_stmts(&stmts[2..], &mut used_after_guard);
+  for v in &loop_variables {
+    dead_code_elimination::collect_use_from_expression(&v.loop_value, &mut used_after_guard);
+  }
+  if stmts[0].as_binary().is_some_and(|guard| used_after_guard.contains(&guard.name)) {
+    return Err((loop_variables, stmts, original_break_collector));
+  }
   // Phase 2: Extract basic induction variables.
   let ExtractedBasicInductionVariables {
     loop_variables_that_are_not_basic_induction_variables,
